@@ -11,4 +11,5 @@ func TestMain(m *testing.M) { ev.Main(m) }
 func TestClose(t *testing.T)      { closeProp.Test(t) }
 func TestCloseRT(t *testing.T)    { closeRTProp.Test(t) }
 func TestPairs(t *testing.T)      { enumeratePairs(t) }
+func TestLateReply(t *testing.T)  { lateProp.Test(t) }
 func TestVerifChild(t *testing.T) { ev.ChildMain(t, closeProp, closeRTProp) }
